@@ -952,6 +952,17 @@ impl Sim {
         }
     }
 
+    /// the CONNACK the simulator sends when no operation of the history chose one
+    fn implicit_connack_kind(&self) -> ConnackKind {
+        let n = self.cfg.session_loss_every as usize;
+        let id = self.conn.as_ref().map(|c| c.id).unwrap_or(0);
+        if n > 0 && (id + 1) % n == 0 {
+            ConnackKind::OkSessionLost
+        } else {
+            ConnackKind::Ok
+        }
+    }
+
     pub fn send_connack(&mut self, kind: ConnackKind, forced: bool) {
         if self.conn.is_none() || self.tr.dead {
             self.tr.remapped += 1;
@@ -1008,7 +1019,8 @@ impl Sim {
         if !connack_sent {
             // a compliant server answers the CONNECT first
             if self.conn.as_ref().unwrap().pending.iter().any(|p| p.type_code == 2) {
-                self.send_connack(ConnackKind::Ok, false);
+                let k = self.implicit_connack_kind();
+                self.send_connack(k, false);
                 return true;
             }
             self.tr.remapped += 1;
@@ -1730,7 +1742,8 @@ impl Sim {
                 } else if self.conn.as_ref().map(|c| c.out.len() > c.written).unwrap_or(false) {
                     self.do_flush_all();
                 } else if self.conn.as_ref().map(|c| c.pending.iter().any(|p| p.type_code == 2)).unwrap_or(false) {
-                    self.send_connack(ConnackKind::Ok, false);
+                    let k = self.implicit_connack_kind();
+                    self.send_connack(k, false);
                 } else {
                     break;
                 }
